@@ -340,6 +340,19 @@ def handle (line : String) : String :=
     match compareVersion true (hexD a) (hexD b) (intD lv) with
     | some r => toString r
     | none => "panic"
+  | ["zl", h] =>
+    -- the ziplist reader of the element-wise route: count (walking the entries behind the 65535 marker), then the entries
+    match ofHex h with
+    | none => "badcase"
+    | some blob =>
+      match RdbDecode.zlLength blob with
+      | .error _ => "zl=err"
+      | .ok (n, buf) =>
+        let (xs, e) := RdbDecode.zlEntries n buf
+        if e.isSome then s!"zl={n} short={xs.length}"
+        else
+          let fp := xs.foldl (fun h x => (x ++ [0xFF]).foldl (fun h b => (h ^^^ b.toUInt64) * 0x100000001b3) h) (0xcbf29ce484222325 : UInt64)
+          s!"zl={n} fp={toHex (le64 fp).reverse}"
   | "r" :: toks => handleRestore toks
   | _ => "badcase"
 
